@@ -86,30 +86,107 @@ def is_read_call(t, dec_prefix):
     return False
 
 
+def _first_field(pl):
+    for e in pl.get('p') or []:
+        if isinstance(e, dict) and 'f' in e:
+            return e['f']
+    return None
+
+
+def reads_behind(B, op, is_read, limit=4000):
+    """blocks of the read calls in the backward data slice of an operand.  Field-sensitive for tuples and struct literals:
+    `let (x, y) = (b, a)` sends x to b only.  A read call ends the walk (what it consumed before is not this value)."""
+    out = set()
+    if op is None or op['k'] not in ('cp', 'mv'):
+        return out
+    seen = set()
+    work = [(op['pl']['l'], _first_field(op['pl']))]
+    defs = B.defs()
+    partial = {}
+    for bb, j, st in B.stmts():
+        if st['k'] == '=' and st['pl'].get('p'):
+            partial.setdefault(st['pl']['l'], []).append(st)
+    steps = 0
+    while work and steps < limit:
+        steps += 1
+        l, fi = work.pop()
+        if (l, fi) in seen:
+            continue
+        seen.add((l, fi))
+
+        def follow(o, carry=None):
+            if o is None or o['k'] not in ('cp', 'mv'):
+                return
+            f2 = _first_field(o['pl'])
+            work.append((o['pl']['l'], f2 if f2 is not None else carry))
+            for e in o['pl'].get('p') or []:
+                if isinstance(e, dict) and 'idx' in e:
+                    work.append((e['idx'], None))
+        for st in partial.get(l, []):
+            f0 = _first_field(st['pl'])
+            if fi is not None and f0 is not None and f0 != fi:
+                continue
+            for o in _rv_ops(st['rv']):
+                follow(o)
+        for d in defs.get(l, []):
+            if d[0] == 't':
+                t = d[3]
+                if is_read(t):
+                    out.add(d[1])
+                    continue
+                for a in t['args']:
+                    follow(a)
+                continue
+            rv = d[3]['rv']
+            k = rv['k']
+            if k == 'agg':
+                ops = rv['ops']
+                if fi is not None and fi < len(ops) and rv.get('ak') in ('tuple', 'adt'):
+                    follow(ops[fi])
+                else:
+                    for o in ops:
+                        follow(o)
+            elif k in ('use', 'cast', 'repeat'):
+                follow(rv['op'], carry=fi)
+            elif k in ('ref', 'rawptr', 'discr'):
+                follow({'k': 'cp', 'pl': rv['pl']}, carry=fi)
+            elif k == 'bin':
+                follow(rv['a'])
+                follow(rv['b'])
+            elif k == 'un':
+                follow(rv['a'])
+    return out
+
+
+def _rv_ops(rv):
+    k = rv['k']
+    if k in ('use', 'cast', 'repeat'):
+        return [rv['op']]
+    if k in ('ref', 'rawptr', 'discr'):
+        return [{'k': 'cp', 'pl': rv['pl']}]
+    if k == 'bin':
+        return [rv['a'], rv['b']]
+    if k == 'un':
+        return [rv['a']]
+    if k == 'agg':
+        return list(rv['ops'])
+    return []
+
+
 def decoder_field_ranks(P, B, bb_call, summary, dec_prefix):
     """{field: rank of the wire read its constructor argument derives from} for the constructor call at bb_call"""
     t = B.blocks[bb_call]['t']
     rpo = rpo_index(B)
-    reads = []
-    for bb, c in B.calls():
-        if bb != bb_call and is_read_call(c, dec_prefix) and c.get('dst') and bb in rpo and B.block_dominates(bb, bb_call):
-            reads.append((rpo[bb], bb, c))
-    reads.sort()
-    derived = [(rk, bb, B.derived_locals([c['dst']['l']]) | {c['dst']['l']}) for rk, bb, c in reads]
+    is_read = lambda c: is_read_call(c, dec_prefix) and bool(c.get('dst'))
+    nreads = sum(1 for bb, c in B.calls() if bb != bb_call and is_read(c))
     out = {}
     for i, a in enumerate(t['args']):
         if i not in summary:
             continue
-        ls = set(B._op_locals(a))
-        if not ls:
-            continue
-        best = None
-        for k, (rk, bb, d) in enumerate(derived):
-            if ls & d:
-                best = k
-        if best is not None:
-            out[summary[i]] = best
-    return out, len(reads)
+        rs = [rpo[b] for b in reads_behind(B, a, is_read) if b in rpo and b != bb_call]
+        if rs:
+            out[summary[i]] = max(rs)
+    return out, nreads
 
 
 def encoder_field_orders(P, fn, argi):
